@@ -95,7 +95,7 @@ print('REPRODUCED' if sorted(d for d in got if d[0] in ('W01', 'W02')) != sorted
 
 @harness(['C10'], 'supp.linter.lint + SourceScope.all_names [one never-read binding per kind and scope]',
          bounded='17 binding kinds x 6 scope kinds (module, class body, function, method, nested function, function in a method), each with a '
-                 'plain and an underscore identifier; 16 parameter / star-import / __future__ forms; 14 dotted-import and global / nonlocal declaration programs; one binding per module')
+                 'plain and an underscore identifier; 16 parameter / star-import / __future__ forms; 18 dotted-import, repeated-word import and global / nonlocal declaration programs; one binding per module')
 def unused_table(run):
     """BOUNDED stand-in for `all_names enumerates every binding once`: the real lint on one-binding modules against the exemption table of the
     property statement.  Not counted as proved."""
@@ -155,6 +155,12 @@ def unused_table(run):
             'def f_(c):\n    if c:\n        import logging.config\n    else:\n        import logging.handlers\n    return logging\n', [], path)
         one('dotted-import-in-function-never-read', 'def f_():\n    import os.path\n', [('W01', 'Unused name: os', 2, 11)], path)
         one('dotted-import-in-function-read-elsewhere', 'import os.path\ndef f_():\n    import os.path\nprint(os)\n', [('W01', 'Unused name: os', 3, 11)], path)
+        # each report carries the binding's OWN position, also when the word occurs earlier in the statement
+        one('from-import-of-the-modules-own-name', 'from datetime import datetime\n', [('W02', 'Unused import: datetime', 1, 21)], path)
+        one('two-imports-binding-one-word', 'import bb, aa as bb\n', [('W02', 'Unused import: bb', 1, 7), ('W02', 'Unused import: bb', 1, 17)], path)
+        one('aliases-crossed-over-two-lines', 'from x import (a1 as b1,\n               b1 as a1)\n',
+            [('W02', 'Unused import: b1', 1, 21), ('W02', 'Unused import: a1', 2, 21)], path)
+        one('function-import-of-the-modules-own-name', 'def f_():\n    from time import time\n', [('W01', 'Unused name: time', 2, 21)], path)
         # declarations: `global` at module level changes nothing; in a function the binding belongs to the module
         one('module-level-global-then-unused-import', 'global os\nimport os\n', [('W02', 'Unused import: os', 2, 7)], path)
         one('module-level-global-then-unused-from-import', 'global path\nfrom os import path\nimport sys\nprint(sys)\n',
